@@ -19,15 +19,15 @@ C = {
  'C09': ('model_checking', 'LockedRejects model-checked; recorded histories with held plain/cached/batch-result queries, nested, and removal listeners that attempt a change: every structural call under lock must panic and change nothing, IsLocked must equal the ghost after every call.', '5/C09', WORLD_T),
  'C10': ('model_checking', 'FaultNoChange model-checked for every illegal-argument class the model enumerates; recorded histories with 12-45 % illegal calls: TLC predicts legality of every call from the ghost world, requires a panic for every illegal one and an unchanged observation afterwards.', '5/C10', WORLD_T),
  'C11': ('model_checking', 'EventsTruthful/EventsComplete model-checked (one event per changed entity, content = state difference); recorded event streams of a listener subscribed to everything validated by TLC per call incl. delivery-time facts (lock state, aliveness, mask, values, target) and deferred delivery for held batch queries.', '5/C11', WORLD_T),
- 'C15': ('model_checking', 'ResetGivesInit model-checked; recorded histories with several Reset cycles: after Reset the ghost is the initial world (registrations kept), so every later call is validated against fresh-world semantics, with registered-filter sweeps after every call.', '5/C15', WORLD_T),
+ 'C12': ('model_checking', 'Subscription rule model-checked over all listeners and event shapes of a small universe (documented rule = code-shaped evaluation, monotone, Dispatch union gate sound); recorded histories with random subscription masks and component restrictions, single Callback listeners and Dispatch compositions of 1-6 sub-listeners (some added mid-history): TLC computes from the full specified event stream exactly what each (sub-)listener must receive and compares content per call.', '5/C12', WORLD_T + '; MCEvents'),
+ 'C13': ('model_checking', 'The same symbolic schedules are executed in four processes (different GOGC, GOMAXPROCS, forced concurrent GC); TLC compares the traces line by line (handles, iteration orders, events, return values, pool dumps) and validates the first against the deterministic specification, including exact entity-pool prediction.', '5/C13', 'TLC trace equality (spec/TraceEq.tla) across processes + TLC trace validation (TraceAbs, EntityPool)'),
+ 'C16': ('model_checking', 'Layout bookkeeping model-checked with the real constants (256 ids, chunk 16) over all interleavings of registration and table creation; registry traces for 0..257 registered run-time-made types (struct / array / pointer shapes, ecs.Relation first / later / nested / absent), three interleavings, both builds: ids, ComponentIDs, ComponentInfo, ResourceIDs judged by Registry.tla; every registered id probed for full usability; over-limit and locked registration must panic and roll back.', '5/C16', 'TLC model checking (MCRegistry) + TLC trace validation of registry traces (TraceRegistry.tla)'),
+ 'C17': ('model_checking', 'Entity pool model-checked (MCPool); twin worlds: the original keeps running, a fresh or used-and-reset world with another capacity increment loads the JSON-round-tripped dump and receives the same creations/removals: TLC checks identical handles, pool dumps, Alive answers for every handle ever issued, identical second dump; loading into a used world must panic.', '5/C17', WORLD_T + '; EntityPool.tla, twin-world comparison lines'),
+ 'C15': ('model_checking', 'ResetGivesInit model-checked; twin worlds: after every Reset a fresh world with the same registrations, filters and listener is created and both receive the same operations; TLC validates both against the specification (after Reset the ghost is the initial world) and checks identical handles, pool dumps, entity tables, event bags, query results and resources, over several reset cycles.', '5/C15', WORLD_T),
  'C20': ('model_checking', 'Resource map semantics validated by TLC on recorded histories interleaving Add/Remove with entity operations, locks and Reset (exact pointer identity via tokens).', '5/C20', WORLD_T),
 }
 NA = {
- 'C12': 'check under construction in this round (Subscribes rule is already part of spec/ArcheAbs.tla)',
- 'C13': 'check under construction in this round',
  'C14': 'check under construction in this round',
- 'C16': 'check under construction in this round',
- 'C17': 'check under construction in this round',
  'C18': 'check under construction in this round',
  'C19': 'check under construction in this round',
 }
@@ -42,7 +42,7 @@ for pid in sorted(C):
                        level_claimed=dict(category=cat, text=text, design_ref='DESIGN.md section ' + ref),
                        level_note=TRUST, technique=tech))
 m = dict(version=1,
-         setup_cmd='cd /verif/harness && cp /repo/go.sum . && GOFLAGS=-mod=mod GOPROXY=off GOSUMDB=off GOTOOLCHAIN=local GOWORK=off go build -tags verif -o /dev/null . && cd /verif/spec && for f in ArcheAbs TraceAbs MCAbs Masks TraceMasks MCMasks; do tla-sany $f.tla >/dev/null || exit 1; done',
+         setup_cmd='cd /verif/harness && cp /repo/go.sum . && GOFLAGS=-mod=mod GOPROXY=off GOSUMDB=off GOTOOLCHAIN=local GOWORK=off go build -tags verif -o /dev/null . && cd /verif/spec && for f in ArcheAbs TraceAbs MCAbs Masks TraceMasks MCMasks EntityPool MCPool Locks MCLocks TraceLocks Registry MCRegistry TraceRegistry MCEvents TraceEq; do tla-sany $f.tla >/dev/null || exit 1; done',
          hooks=dict(guard='verif', enable='go build -tags verif (harness module /verif/harness, replace github.com/mlange-42/arche => /repo)',
                     baseline_off_cmd='for m in $(cat /w/out/gomods.txt); do MF=$(cd /repo/$m && . /w/out/goenv.sh && gomodflag); (cd /repo/$m && go test $MF -json -vet=off -count=1 -timeout 25m ./...); done',
                     source_commits=hook_commits, add_only=True),
